@@ -26,10 +26,11 @@ def build(verbose=False):
             hh.update(open(fp, 'rb').read())
         h = hh.hexdigest()
         if os.path.exists(stamp) and open(stamp).read() == h and os.path.exists(BIN): return BIN
-        rp = os.path.join(VERIF, 'replay')
+        from .front import crate_dir
+        sd = crate_dir('subjects'); rp = crate_dir('replay')
         lf = os.path.join(rp, 'Cargo.lock')
         if not os.path.exists(lf):
-            import shutil; shutil.copy(os.path.join(VERIF, 'subjects', 'Cargo.lock'), lf)
+            import shutil; shutil.copy(os.path.join(sd, 'Cargo.lock') if os.path.exists(os.path.join(sd, 'Cargo.lock')) else os.path.join(REPO, 'Cargo.lock'), lf)
         p = subprocess.run(['cargo', 'build', '--offline', '--target-dir', os.path.join(BUILD, 'tgt-replay')], cwd=rp, env=_env(), capture_output=True, text=True)
         if p.returncode != 0: raise RuntimeError('replay crate does not build against the current tree:\n' + p.stderr[-3000:])
         open(stamp, 'w').write(h)
